@@ -328,6 +328,26 @@ func (fr *frame) loopEnv(h *ssa.BasicBlock, phiVals map[*ssa.Phi]SV, cur *State)
 			}
 		}
 	}
+	// named locals that live in a cell (named results of functions with defer, escaping locals) and have no
+	// DebugRef before the loop: the name denotes the value currently stored in the cell
+	for _, b := range fr.fn.Blocks {
+		if !b.Dominates(h) || b == h {
+			continue
+		}
+		for _, ins := range b.Instrs {
+			al, ok := ins.(*ssa.Alloc)
+			if !ok || al.Comment == "" || best[al.Comment] != nil {
+				continue
+			}
+			if _, isParam := vc.params[al.Comment]; isParam && fr.top {
+				continue
+			}
+			if psv, have := fr.env[al]; have {
+				best[al.Comment] = b
+				env.vars[al.Comment] = SV{t: vc.loadLoc(cur, vc.locOf(psv)), typ: derefType(al.Type())}
+			}
+		}
+	}
 	for _, ins := range h.Instrs {
 		phi, ok := ins.(*ssa.Phi)
 		if !ok {
@@ -576,6 +596,25 @@ func (vc *VC) globalRef(g *ssa.Global) SV {
 }
 
 // ---------------------------------------------------------------- integer helpers
+
+// wrapNamed: the machine-integer result of x, as a named constant together with the (valid) fact that it equals x
+// whenever x is in range - solvers otherwise have to rediscover this through the mod arithmetic of wrapInt.
+func (fr *frame) wrapNamed(x T, t types.Type) T {
+	w := wrapInt(x, t)
+	if w == x || fr.vc.dry {
+		return w
+	}
+	lo, hi, ok := intRange(t)
+	if !ok {
+		return w
+	}
+	if _, isNum := isNumeral(x); isNum {
+		return w
+	}
+	n := fr.vc.nameTerm2("wr", w, "Int")
+	fr.vc.assume(implies(and(le(lo, x), le(x, hi)), eq(n, x)))
+	return n
+}
 
 func wrapInt(x T, t types.Type) T {
 	lo, hi, ok := intRange(t)
@@ -1075,12 +1114,12 @@ func (fr *frame) binop(x *ssa.BinOp) SV {
 		if isFloatType(t) {
 			return SV{t: app("+", a.t, b.t), typ: rt}
 		}
-		return SV{t: wrapInt(app("+", a.t, b.t), rt), typ: rt}
+		return SV{t: fr.wrapNamed(app("+", a.t, b.t), rt), typ: rt}
 	case token.SUB:
 		if isFloatType(t) {
 			return SV{t: app("-", a.t, b.t), typ: rt}
 		}
-		return SV{t: wrapInt(app("-", a.t, b.t), rt), typ: rt}
+		return SV{t: fr.wrapNamed(app("-", a.t, b.t), rt), typ: rt}
 	case token.MUL:
 		if isFloatType(t) {
 			return SV{t: app("*", a.t, b.t), typ: rt}
@@ -1250,6 +1289,9 @@ func (fr *frame) sliceOp(x *ssa.Slice, cur *State) SV {
 	switch u := x.X.Type().Underlying().(type) {
 	case *types.Slice:
 		if vc.sortOf(x.X.Type()) == "Bytes" {
+			if x.Low == nil && x.High == nil && x.Max == nil {
+				return SV{t: base.t, typ: x.Type()} // b[:] is b
+			}
 			vc.declRaw("fn:bytes_sub", "(declare-fun bytes_sub (Bytes Int Int) Bytes)")
 			if x.High != nil {
 				hi = fr.val(x.High).t
@@ -1293,6 +1335,17 @@ func (fr *frame) sliceOp(x *ssa.Slice, cur *State) SV {
 			// value mode: a byte-slice literal / array slice becomes a non-nil byte string of that length
 			b := vc.fresh("arrbytes", "Bytes")
 			vc.assume(and(eq(app("bytes_len", b), sub(hi, lo)), not(eq(b, "bytes_nil"))))
+			if x.Low == nil && x.High == nil && x.Max == nil {
+				if bl := vc.locOf(base); bl != nil && bl.Idx == "" && len(bl.Path) == 0 {
+					if vc.arrOrigin == nil {
+						vc.arrOrigin = map[T]arrOrig{}
+					}
+					vc.arrOrigin[b] = arrOrig{loc: bl, n: arr.Len()}
+					// the byte string determines the array (akey), and the array the byte string
+					vc.usePrelude("akey")
+					vc.assume(eq(vc.loadLoc(cur, bl), app("akey", b)))
+				}
+			}
 			if arr.Len() > 0 {
 				vc.assumes["value mode: content of a byte array sliced into a byte string is not tracked"] = true
 			}
